@@ -18,40 +18,36 @@ From CSL Require Import Base.Prelude Base.U64 Cbor.Head Cbor.HeadProofs Num.Valu
 From CSL Require MinAda.OutputSize MinAda.MinAda MinAda.MinAdaProofs MinAda.TxSize.
 Local Open Scope N_scope.
 
-Module OS := CSL.MinAda.OutputSize.
-Module MA := CSL.MinAda.MinAda.
-Module MP := CSL.MinAda.MinAdaProofs.
-Module TS := CSL.MinAda.TxSize.
 
 (* ---- environment: what the identifiers of C05's model stand for ---- *)
 Record cenv := mkCEnv {
-  ce_cfg : MA.config;                          (* coins per byte, max value size, max tx size *)
+  ce_cfg : MinAda.config;                          (* coins per byte, max value size, max tx size *)
   ce_addr : N -> N;                            (* address id -> byte length of the address *)
-  ce_extra : N -> OS.datum * option OS.sref;   (* datum / script-ref id -> their shapes *)
+  ce_extra : N -> OutputSize.datum * option OutputSize.sref;   (* datum / script-ref id -> their shapes *)
   ce_a : N; ce_b : N;                          (* LinearFee *)
   ce_vkeys : N                                 (* mock vkey witnesses of fake_full_tx *)
 }.
 
 (* the size-only view of C05's values and outputs *)
-Definition shape_assets (a : assets) : OS.policy := map (fun nq => (N.of_nat (length (fst nq)), snd nq)) a.
-Definition shape_ma (m : option multiasset) : OS.multiasset :=
+Definition shape_assets (a : assets) : OutputSize.policy := map (fun nq => (N.of_nat (length (fst nq)), snd nq)) a.
+Definition shape_ma (m : option multiasset) : OutputSize.multiasset :=
   match m with Some m => map (fun pa => shape_assets (snd pa)) m | None => [] end.
-Definition shape_output (e : cenv) (x : output) : OS.output :=
-  OS.mkOut (ce_addr e (o_addr x)) (coin (o_amount x)) (shape_ma (multiasset_of (o_amount x)))
+Definition shape_output (e : cenv) (x : output) : OutputSize.output :=
+  OutputSize.mkOut (ce_addr e (o_addr x)) (coin (o_amount x)) (shape_ma (multiasset_of (o_amount x)))
            (fst (ce_extra e (o_extra x))) (snd (ce_extra e (o_extra x))).
 
 (* the concrete answers *)
 Definition min_ada_c (e : cenv) (x : output) : result N :=
-  MA.min_ada_for_output (MA.c_cpb (ce_cfg e)) (shape_output e x).
+  MinAda.min_ada_for_output (MinAda.c_cpb (ce_cfg e)) (shape_output e x).
 Definition value_too_big_c (e : cenv) (v : value) : bool :=
-  MA.c_max_value_size (ce_cfg e) <? OS.value_size (coin v) (shape_ma (multiasset_of v)).
+  MinAda.c_max_value_size (ce_cfg e) <? OutputSize.value_size (coin v) (shape_ma (multiasset_of v)).
 
 (* the transaction build() measures, for builder states that only carry inputs, outputs and a fee *)
-Definition tx_shape_of (e : cenv) (s : state) (fee : N) : TS.tx_shape :=
-  TS.mkTx (map fst (s_inputs s)) (map (shape_output e) (s_outputs s)) fee (ce_vkeys e) [].
+Definition tx_shape_of (e : cenv) (s : state) (fee : N) : TxSize.tx_shape :=
+  TxSize.mkTx (map fst (s_inputs s)) (map (shape_output e) (s_outputs s)) fee (ce_vkeys e) [].
 Definition tx_too_big_c (e : cenv) (s : state) : bool :=
   match get_fee_if_set s with
-  | Some f => MA.c_max_tx_size (ce_cfg e) <? TS.full_tx_size (tx_shape_of e s f)
+  | Some f => MinAda.c_max_tx_size (ce_cfg e) <? TxSize.full_tx_size (tx_shape_of e s f)
   | None => false
   end.
 (* the private min_fee: build() (fee must be set, size guard), then the linear fee of the size *)
@@ -59,8 +55,8 @@ Definition min_fee_c (e : cenv) (s : state) : result N :=
   match get_fee_if_set s with
   | None => Err
   | Some f =>
-      let size := TS.full_tx_size (tx_shape_of e s f) in
-      if MA.c_max_tx_size (ce_cfg e) <? size then Err
+      let size := TxSize.full_tx_size (tx_shape_of e s f) in
+      if MinAda.c_max_tx_size (ce_cfg e) <? size then Err
       else let* m := checked_mul size (ce_a e) in checked_add m (ce_b e)
   end.
 
@@ -77,7 +73,7 @@ Definition sizes_exact {O : Type} (e : cenv) (orc : @oracle O) : Prop :=
   (forall v o, fst (ask_value_too_big orc v o) = value_too_big_c e v).
 
 (* the property on C05's outputs *)
-Definition out_ok (e : cenv) (x : output) : bool := MA.output_ok (ce_cfg e) (shape_output e x).
+Definition out_ok (e : cenv) (x : output) : bool := MinAda.output_ok (ce_cfg e) (shape_output e x).
 Definition all_ok (e : cenv) (s : state) : Prop := forallb (out_ok e) (s_outputs s) = true.
 
 Lemma c07_oracle_sizes_exact e : sizes_exact e (c07_oracle e).
@@ -92,8 +88,8 @@ Proof.
     destruct (_ <? _); [discriminate|]. unfold checked_mul, checked_add, bind.
     destruct (_ * _ <? two64); [|discriminate]. destruct (_ + _ <? two64) eqn:L; [|discriminate].
     intros H; inversion H; subst. lia.
-  - intros x o v. cbn [c07_oracle ask_min_ada fst]. unfold min_ada_c, MA.min_ada_for_output.
-    rewrite MP.calculate_ada_abs_eq. apply MP.rounds_range.
+  - intros x o v. cbn [c07_oracle ask_min_ada fst]. unfold min_ada_c, MinAda.min_ada_for_output.
+    rewrite MinAdaProofs.calculate_ada_abs_eq. apply MinAdaProofs.rounds_range.
   - intros st utxos o _. cbn. constructor.
 Qed.
 
@@ -195,9 +191,9 @@ Section Instance.
     cbn [out_res out_st out_orc]. rewrite EA.
     destruct (min_ada_c e x) as [m| | |] eqn:Min; cbn [out_res out_st]; try exact I.
     destruct (coin (o_amount x) <? m) eqn:L; cbn [out_res out_st]; [exact I|].
-    split; [exact Ps|]. unfold out_ok, MA.output_ok.
+    split; [exact Ps|]. unfold out_ok, MinAda.output_ok.
     unfold min_ada_c in Min. apply N.ltb_ge in L.
-    rewrite (MP.admitted_meets_min _ _ _ Min L). cbn [andb].
+    rewrite (MinAdaProofs.admitted_meets_min _ _ _ Min L). cbn [andb].
     unfold value_too_big_c in Big. apply N.ltb_ge in Big. apply N.leb_le. exact Big.
   Qed.
 
